@@ -1,6 +1,6 @@
 /-
 Model of server/commitlog/delete_cleaner.go: retention by age, then message count, then
-bytes, at segment granularity, always keeping the last (active) segment.
+bytes, then age again, at segment granularity, always keeping the last (active) segment.
 -/
 import Liftbridge.Model.Log
 import Liftbridge.Gen.Retention
@@ -46,7 +46,9 @@ def clean (lim : Limits) (ttl : Int) (segs : List Seg) : List Seg :=
   if lim.bytes = 0 ∧ lim.msgs = 0 ∧ lim.age = 0 then segs else
   let s1 := if Gen.Retention.ageOnCmp.evalInt lim.age 0 then applyAge ttl segs else segs
   let s2 := if Gen.Retention.msgsOnCmp.evalInt lim.msgs 0 then applyLimit Gen.Retention.msgsCmp lim.msgs msgSize s1 else s1
-  if Gen.Retention.bytesOnCmp.evalInt lim.bytes 0 then applyLimit Gen.Retention.bytesCmp lim.bytes byteSize s2 else s2
+  let s3 := if Gen.Retention.bytesOnCmp.evalInt lim.bytes 0 then applyLimit Gen.Retention.bytesCmp lim.bytes byteSize s2 else s2
+  -- the age limit is enforced again: removing segments by count or size can uncover old ones
+  if Gen.Retention.ageSecondPass && Gen.Retention.ageOnCmp.evalInt lim.age 0 then applyAge ttl s3 else s3
 
 /-- `commitLog.Clean` without compaction: swap the segment list and move the earliest leader
 epoch forward to the new first segment's *base* offset. -/
